@@ -506,6 +506,9 @@ class CNF(SimpleSequence[Clause]):
             # comparison below would silently drop k's high bits.)
             self._assert_unsatisfiable(in_list)
             return
+        if not in_list:
+            # None of no variables is true: nothing to assert.
+            return
         in_binary =  int_to_binary(k)
         sum_bits = self.pop_count(in_list, len(in_binary)+1)
         # Add zero padding to the left.
@@ -527,9 +530,11 @@ class CNF(SimpleSequence[Clause]):
         self._inequality_assertion(False, k, in_list)
 
     def _assert_unsatisfiable(self, in_list: Sequence[Var]):
-        if not in_list:
-            raise ValueError("cannot take pop count of empty list")
-        v = Var(in_list[0])
+        # Any variable will do; an empty list offers none, so take a fresh one.
+        if in_list:
+            v = Var(in_list[0])
+        else:
+            v = self.get_fresh()
         self.prepend(CNF([[v], [~v]]))
 
     def _inequality_assertion(self, assert_less_than: bool, k: int, in_list: Sequence[Var]):
@@ -540,6 +545,10 @@ class CNF(SimpleSequence[Clause]):
             return
         if not assert_less_than and k >= len(in_list):
             # The count can never exceed k.
+            self._assert_unsatisfiable(in_list)
+            return
+        if not in_list:
+            # A count of 0 is not less than a k that is 0 or below.
             self._assert_unsatisfiable(in_list)
             return
         in_binary = int_to_binary(k)
